@@ -12,7 +12,7 @@ Theorem C09_admin_only :
   forall cfg s r,
     admin_route (r_route r) ->
     success (snd (handle true cfg s r)) \/ fst (handle true cfg s r) <> s ->
-    exists b, r_cred r = Bearer b /\ valid_principal (clock s) (cfg_host cfg) b /\
+    exists b, r_cred r = Bearer b /\ valid_principal (clock s) (cfg_host cfg) (cfg_secret cfg) b /\
               In "relay:admin" (c_scopes (b_claims b)).
 Proof. exact admin_only. Qed.
 Print Assumptions C09_admin_only.
@@ -22,7 +22,7 @@ Theorem C09_stats_only :
   forall cfg s r,
     r_route r = RStatus ->
     success (snd (handle true cfg s r)) \/ fst (handle true cfg s r) <> s ->
-    exists b, r_cred r = Bearer b /\ valid_principal (clock s) (cfg_host cfg) b /\
+    exists b, r_cred r = Bearer b /\ valid_principal (clock s) (cfg_host cfg) (cfg_secret cfg) b /\
               In "relay:stats" (c_scopes (b_claims b)).
 Proof. exact stats_only. Qed.
 Print Assumptions C09_stats_only.
@@ -40,7 +40,7 @@ Print Assumptions C09_missing_scope_refused.
 (* and when the token itself verifies and the query values bind, the status is 401 *)
 Theorem C09_missing_scope_is_401 :
   forall cfg s r c,
-    validate_header (clock s) (cfg_host cfg) (r_cred r) = Principal c ->
+    validate_header (clock s) (cfg_host cfg) (cfg_secret cfg) (r_cred r) = Principal c ->
     (r_route r = RListDeny /\ ~ In "relay:admin" (c_scopes c)) \/
     (r_route r = RListAllow /\ ~ In "relay:admin" (c_scopes c)) \/
     (r_route r = RDeny /\ bind_params r <> None /\ ~ In "relay:admin" (c_scopes c)) \/
@@ -66,6 +66,25 @@ Theorem C09_scope_match_is_equality :
 Proof. exact str_mem_in. Qed.
 Print Assumptions C09_scope_match_is_equality.
 
+(* "otherwise invalid tokens are refused": whenever the authenticator does not produce a principal (no header,
+   damaged token, wrong alg, wrong key, outside its window, other audience) every endpoint answers with an error
+   status and nothing changes *)
+Theorem C09_invalid_token_refused :
+  forall cfg s r,
+    (forall c, validate_header (clock s) (cfg_host cfg) (cfg_secret cfg) (r_cred r) <> Principal c) ->
+    refusal (snd (handle true cfg s r)) /\ fst (handle true cfg s r) = s.
+Proof. exact unauthenticated_refused. Qed.
+Print Assumptions C09_invalid_token_refused.
+
+(* in particular a token carrying the exact scope but signed with anything else than the configured secret (a
+   "previous" key, the empty key, ...), whatever key id its header names *)
+Theorem C09_forged_scope_refused :
+  forall cfg s r b,
+    r_cred r = Bearer b -> b_signed b <> Some (cfg_secret cfg) ->
+    refusal (snd (handle true cfg s r)) /\ fst (handle true cfg s r) = s.
+Proof. exact wrong_key_refused. Qed.
+Print Assumptions C09_forged_scope_refused.
+
 (* a refused call disconnects nobody, spends no code and leaves both lists alone *)
 Theorem C09_no_disconnect :
   forall cfg s r,
@@ -78,9 +97,9 @@ Print Assumptions C09_no_disconnect.
 (* non-vacuity: a history in which a member has joined under booking 1; a deny of booking 1 by a stats-only
    principal is answered 401 and the member stays; the same call by an admin is answered 204, the member is
    gone and the id is on the deny list *)
-Definition c09_cfg : config := mkconfig false "h" "w" "w" 30.
+Definition c09_cfg : config := mkconfig false "h" "w" "w" 30 7.
 Definition c09_tok (scopes : list string) : credential :=
-  Bearer (mkbearer SWell HS256 true (mkclaims "t" "session" 1 scopes ["h"] (Some 50%Z) (Some 5%Z) (Some 5%Z))).
+  Bearer (mkbearer SWell HS256 [] (Some 7%N) (mkclaims "t" "session" 1 scopes ["h"] (Some 50%Z) (Some 5%Z) (Some 5%Z))).
 Definition c09_prefix : list op :=
   [OReq (mkreq (RSession "t") (c09_tok ["read"]) None None); OWs "/session/t" (Some 0%N) 7].
 
@@ -96,3 +115,11 @@ Example C09_witness :
   snd (handle true c09_cfg s (mkreq RStatus (c09_tok ["relay:stats"]) None None))
     = Resp 200 (BReports [mkreport "t" ["read"] 50 true false 7]).
 Proof. vm_compute. repeat split; reflexivity. Qed.
+
+(* non-vacuity: an admin-scope token signed with key 8 (header says kid) is answered 500 on deny and the state stays;
+   signed with the configured 7 it is answered 204 *)
+Example C09_witness_forged :
+  let tok k := Bearer (mkbearer SWell HS256 ["kid"] (Some k) (mkclaims "" "" 0 ["relay:admin"] ["h"] (Some 50%Z) None None)) in
+  handle true c09_cfg (init 10) (mkreq RDeny (tok 8%N) (Some 1%N) (Some "40")) = (init 10, Resp 500 BError) /\
+  snd (handle true c09_cfg (init 10) (mkreq RDeny (tok 7%N) (Some 1%N) (Some "40"))) = Resp 204 BEmpty.
+Proof. vm_compute. split; reflexivity. Qed.
